@@ -3,13 +3,13 @@ from ..oracles import c01
 
 c01.enable()      # every Jacobian the streams obtain is also checked against finite differences of the code's compute
 
-MODELS = ["Drag", "Stress", "Functionals", "Transfer", "Loads", "Aero", "PG", "Beam", "BeamTables", "Geom", "Misc", "MultiSec", "Wingbox", "Constants"]
+MODELS = ["Drag", "Stress", "Functionals", "Transfer", "Loads", "Aero", "PG", "Beam", "BeamTables", "Geom", "Misc", "MultiSec", "Wingbox", "Small", "Constants"]
 STREAMS = [jac_drag.stream_viscous_jac, jac_drag.stream_wave_jac, jac_stress.stream_vonmises_jac, jac_stress.stream_elementwise_jac,
            jac_functionals.stream_scalar_functionals_jac, jac_functionals.stream_moment_jac, jac_transfer.stream_transfer_jac,
            jac_loads.stream_loads_jac, jac_aero.stream_points_mesh_jac, jac_aero.stream_eval_mtx_jac, jac_aero.stream_geometry_flow_jac,
            jac_aero.stream_system_jac, jac_beam.stream_element_jac, jac_beam.stream_implicit_jac, jac_beam.stream_pg_jac,
            jac_geom.stream_transformations_jac, jac_geom.stream_multisection_jac,
-           jac_wingbox.stream_section_properties_wingbox, jac_wingbox.stream_wingbox_geometry]
+           jac_wingbox.stream_section_properties_wingbox, jac_wingbox.stream_wingbox_geometry, jac_wingbox.stream_small_components]
 ORACLES = [c01.oracle_multi_surface, c01.oracle_fd, c01.oracle_wingbox_untwisted]
 UNPROVED = ["FailureKS: its theorem is C15_ks_reported_derivative (Props/C15.v); AtmosComp's spline derivative: C17 (akima_der stream)",
             "WingboxGeometry.fem_twists at an exactly untwisted section: refuted (C01_WingboxGeometry_twist_measure_refuted_at_zero_twist), known finding F13",
